@@ -1,0 +1,515 @@
+//! Verification shim (only compiled with `--cfg sighook_verif`).
+//!
+//! Thin wrappers around the `std`/`libc` items the modelled files use. Each wrapper reports the
+//! operation to a process-global callback *before* performing it on the wrapped `std` object (the
+//! callback is where an external scheduler may park the thread or ask for a spurious CAS failure
+//! / a stale relaxed load) and reports the result afterwards. No scheduling logic lives here.
+//! Without a callback installed every wrapper is a plain pass-through.
+#![allow(missing_docs, dead_code)]
+
+use std::cell::UnsafeCell as StdUnsafeCell;
+use std::ops::{Deref, DerefMut};
+use std::panic::Location;
+use std::sync::atomic as sa;
+use std::sync::{LockResult, PoisonError};
+
+pub use std::sync::atomic::Ordering;
+
+/// What is being done.
+#[derive(Copy, Clone, Debug, PartialEq, Eq)]
+pub enum Op {
+    Load,
+    Store,
+    Swap,
+    FetchAdd,
+    FetchSub,
+    Cas,
+    CasWeak,
+    MutexLock,
+    MutexUnlock,
+    Yield,
+    Spin,
+    CellAccess,
+    Alloc,
+    Free,
+    Syscall,
+}
+
+/// One reported operation.
+#[derive(Copy, Clone, Debug)]
+pub struct Event {
+    pub op: Op,
+    /// call site in the library (`#[track_caller]`)
+    pub file: &'static str,
+    pub line: u32,
+    /// address of the object operated on (0 if none)
+    pub addr: usize,
+    /// success / only ordering
+    pub ord: Option<Ordering>,
+    /// failure ordering of a compare-exchange
+    pub ord_fail: Option<Ordering>,
+    /// value written / added / expected (compare-exchange: expected)
+    pub arg: u64,
+    /// compare-exchange: new value
+    pub arg2: u64,
+    /// name of the system call (Op::Syscall)
+    pub name: &'static str,
+}
+
+/// What the callback may ask for.
+#[derive(Copy, Clone, Debug, PartialEq, Eq)]
+pub enum Inject {
+    None,
+    /// `compare_exchange_weak`: fail although the value matches; a relaxed load / failed CAS:
+    /// return this (older) value instead of reading
+    Stale(u64),
+    /// `compare_exchange_weak`: fail spuriously, returning the current value
+    SpuriousFail,
+    /// system call: do not perform it, return this value
+    Return(i64),
+}
+
+/// The callbacks: `pre` before the operation, `post` with its result.
+#[derive(Copy, Clone)]
+pub struct Hooks {
+    pub pre: fn(&Event) -> Inject,
+    pub post: fn(&Event, u64, bool),
+}
+
+static HOOK_SET: sa::AtomicBool = sa::AtomicBool::new(false);
+static mut HOOKS: Option<Hooks> = None;
+
+/// Install the callbacks (call once, before any other thread uses the library).
+pub unsafe fn set_hooks(h: Hooks) {
+    HOOKS = Some(h);
+    HOOK_SET.store(true, sa::Ordering::SeqCst);
+}
+
+#[inline]
+fn hooks() -> Option<Hooks> {
+    if HOOK_SET.load(sa::Ordering::SeqCst) {
+        unsafe { HOOKS }
+    } else {
+        None
+    }
+}
+
+#[inline]
+fn pre(e: &Event) -> Inject {
+    match hooks() {
+        Some(h) => (h.pre)(e),
+        None => Inject::None,
+    }
+}
+
+#[inline]
+fn post(e: &Event, result: u64, ok: bool) {
+    if let Some(h) = hooks() {
+        (h.post)(e, result, ok)
+    }
+}
+
+fn ev(op: Op, loc: &'static Location<'static>, addr: usize) -> Event {
+    Event {
+        op,
+        file: loc.file(),
+        line: loc.line(),
+        addr,
+        ord: None,
+        ord_fail: None,
+        arg: 0,
+        arg2: 0,
+        name: "",
+    }
+}
+
+macro_rules! atomic_int {
+    ($name:ident, $std:ty, $t:ty) => {
+        #[derive(Debug, Default)]
+        pub struct $name($std);
+        impl $name {
+            pub const fn new(v: $t) -> Self {
+                $name(<$std>::new(v))
+            }
+            fn addr(&self) -> usize {
+                &self.0 as *const _ as usize
+            }
+            #[track_caller]
+            pub fn load(&self, o: Ordering) -> $t {
+                let mut e = ev(Op::Load, Location::caller(), self.addr());
+                e.ord = Some(o);
+                let v = match pre(&e) {
+                    Inject::Stale(v) => v as $t,
+                    _ => self.0.load(o),
+                };
+                post(&e, v as u64, true);
+                v
+            }
+            #[track_caller]
+            pub fn store(&self, v: $t, o: Ordering) {
+                let mut e = ev(Op::Store, Location::caller(), self.addr());
+                e.ord = Some(o);
+                e.arg = v as u64;
+                pre(&e);
+                self.0.store(v, o);
+                post(&e, v as u64, true);
+            }
+            #[track_caller]
+            pub fn swap(&self, v: $t, o: Ordering) -> $t {
+                let mut e = ev(Op::Swap, Location::caller(), self.addr());
+                e.ord = Some(o);
+                e.arg = v as u64;
+                pre(&e);
+                let r = self.0.swap(v, o);
+                post(&e, r as u64, true);
+                r
+            }
+            #[track_caller]
+            pub fn compare_exchange(&self, cur: $t, new: $t, s: Ordering, f: Ordering) -> Result<$t, $t> {
+                let mut e = ev(Op::Cas, Location::caller(), self.addr());
+                e.ord = Some(s);
+                e.ord_fail = Some(f);
+                e.arg = cur as u64;
+                e.arg2 = new as u64;
+                let r = match pre(&e) {
+                    Inject::Stale(v) if v as $t != cur => Err(v as $t),
+                    _ => self.0.compare_exchange(cur, new, s, f),
+                };
+                match r {
+                    Ok(v) => post(&e, v as u64, true),
+                    Err(v) => post(&e, v as u64, false),
+                }
+                r
+            }
+            #[track_caller]
+            pub fn compare_exchange_weak(&self, cur: $t, new: $t, s: Ordering, f: Ordering) -> Result<$t, $t> {
+                let mut e = ev(Op::CasWeak, Location::caller(), self.addr());
+                e.ord = Some(s);
+                e.ord_fail = Some(f);
+                e.arg = cur as u64;
+                e.arg2 = new as u64;
+                let r = match pre(&e) {
+                    Inject::Stale(v) => Err(v as $t),
+                    Inject::SpuriousFail => Err(self.0.load(sa::Ordering::SeqCst)),
+                    _ => self.0.compare_exchange(cur, new, s, f),
+                };
+                match r {
+                    Ok(v) => post(&e, v as u64, true),
+                    Err(v) => post(&e, v as u64, false),
+                }
+                r
+            }
+        }
+    };
+}
+
+atomic_int!(AtomicU16, sa::AtomicU16, u16);
+
+/// `AtomicUsize` with the arithmetic read-modify-writes the half-lock uses.
+#[derive(Debug, Default)]
+pub struct AtomicUsize(sa::AtomicUsize);
+
+impl AtomicUsize {
+    pub const fn new(v: usize) -> Self {
+        AtomicUsize(sa::AtomicUsize::new(v))
+    }
+    fn addr(&self) -> usize {
+        &self.0 as *const _ as usize
+    }
+    #[track_caller]
+    pub fn load(&self, o: Ordering) -> usize {
+        let mut e = ev(Op::Load, Location::caller(), self.addr());
+        e.ord = Some(o);
+        pre(&e);
+        let v = self.0.load(o);
+        post(&e, v as u64, true);
+        v
+    }
+    #[track_caller]
+    pub fn store(&self, v: usize, o: Ordering) {
+        let mut e = ev(Op::Store, Location::caller(), self.addr());
+        e.ord = Some(o);
+        e.arg = v as u64;
+        pre(&e);
+        self.0.store(v, o);
+        post(&e, v as u64, true);
+    }
+    #[track_caller]
+    pub fn fetch_add(&self, v: usize, o: Ordering) -> usize {
+        let mut e = ev(Op::FetchAdd, Location::caller(), self.addr());
+        e.ord = Some(o);
+        e.arg = v as u64;
+        pre(&e);
+        let r = self.0.fetch_add(v, o);
+        post(&e, r as u64, true);
+        r
+    }
+    #[track_caller]
+    pub fn fetch_sub(&self, v: usize, o: Ordering) -> usize {
+        let mut e = ev(Op::FetchSub, Location::caller(), self.addr());
+        e.ord = Some(o);
+        e.arg = v as u64;
+        pre(&e);
+        let r = self.0.fetch_sub(v, o);
+        post(&e, r as u64, true);
+        r
+    }
+}
+
+#[derive(Debug, Default)]
+pub struct AtomicBool(sa::AtomicBool);
+
+impl AtomicBool {
+    pub const fn new(v: bool) -> Self {
+        AtomicBool(sa::AtomicBool::new(v))
+    }
+    fn addr(&self) -> usize {
+        &self.0 as *const _ as usize
+    }
+    #[track_caller]
+    pub fn load(&self, o: Ordering) -> bool {
+        let mut e = ev(Op::Load, Location::caller(), self.addr());
+        e.ord = Some(o);
+        pre(&e);
+        let v = self.0.load(o);
+        post(&e, v as u64, true);
+        v
+    }
+    #[track_caller]
+    pub fn store(&self, v: bool, o: Ordering) {
+        let mut e = ev(Op::Store, Location::caller(), self.addr());
+        e.ord = Some(o);
+        e.arg = v as u64;
+        pre(&e);
+        self.0.store(v, o);
+        post(&e, v as u64, true);
+    }
+    #[track_caller]
+    pub fn compare_exchange(&self, cur: bool, new: bool, s: Ordering, f: Ordering) -> Result<bool, bool> {
+        let mut e = ev(Op::Cas, Location::caller(), self.addr());
+        e.ord = Some(s);
+        e.ord_fail = Some(f);
+        e.arg = cur as u64;
+        e.arg2 = new as u64;
+        pre(&e);
+        let r = self.0.compare_exchange(cur, new, s, f);
+        match r {
+            Ok(v) => post(&e, v as u64, true),
+            Err(v) => post(&e, v as u64, false),
+        }
+        r
+    }
+}
+
+#[derive(Debug)]
+pub struct AtomicPtr<T>(sa::AtomicPtr<T>);
+
+impl<T> Default for AtomicPtr<T> {
+    fn default() -> Self {
+        AtomicPtr(sa::AtomicPtr::default())
+    }
+}
+
+impl<T> AtomicPtr<T> {
+    pub const fn new(p: *mut T) -> Self {
+        AtomicPtr(sa::AtomicPtr::new(p))
+    }
+    fn addr(&self) -> usize {
+        &self.0 as *const _ as usize
+    }
+    #[track_caller]
+    pub fn load(&self, o: Ordering) -> *mut T {
+        let mut e = ev(Op::Load, Location::caller(), self.addr());
+        e.ord = Some(o);
+        pre(&e);
+        let v = self.0.load(o);
+        post(&e, v as usize as u64, true);
+        v
+    }
+    #[track_caller]
+    pub fn swap(&self, p: *mut T, o: Ordering) -> *mut T {
+        let mut e = ev(Op::Swap, Location::caller(), self.addr());
+        e.ord = Some(o);
+        e.arg = p as usize as u64;
+        pre(&e);
+        let r = self.0.swap(p, o);
+        post(&e, r as usize as u64, true);
+        r
+    }
+}
+
+/// `std::sync::atomic::spin_loop_hint`
+#[track_caller]
+pub fn spin_loop_hint() {
+    let e = ev(Op::Spin, Location::caller(), 0);
+    pre(&e);
+    post(&e, 0, true);
+}
+
+/// stand-in for `std::thread` (only what the half-lock uses)
+pub mod thread {
+    use super::*;
+    #[track_caller]
+    pub fn yield_now() {
+        let e = ev(Op::Yield, Location::caller(), 0);
+        if let Inject::None = pre(&e) {
+            if hooks().is_none() {
+                std::thread::yield_now();
+            }
+        }
+        post(&e, 0, true);
+    }
+}
+
+#[derive(Debug, Default)]
+pub struct Mutex<T>(std::sync::Mutex<T>);
+
+pub struct MutexGuard<'a, T: 'a> {
+    inner: Option<std::sync::MutexGuard<'a, T>>,
+    addr: usize,
+}
+
+impl<T> Mutex<T> {
+    pub fn new(v: T) -> Self {
+        Mutex(std::sync::Mutex::new(v))
+    }
+    #[track_caller]
+    pub fn lock(&self) -> LockResult<MutexGuard<T>> {
+        let addr = &self.0 as *const _ as usize;
+        let e = ev(Op::MutexLock, Location::caller(), addr);
+        pre(&e);
+        let r = match self.0.lock() {
+            Ok(g) => Ok(MutexGuard { inner: Some(g), addr }),
+            Err(p) => Err(PoisonError::new(MutexGuard { inner: Some(p.into_inner()), addr })),
+        };
+        post(&e, r.is_err() as u64, true);
+        r
+    }
+}
+
+impl<'a, T> Deref for MutexGuard<'a, T> {
+    type Target = T;
+    fn deref(&self) -> &T {
+        self.inner.as_ref().unwrap()
+    }
+}
+
+impl<'a, T> DerefMut for MutexGuard<'a, T> {
+    fn deref_mut(&mut self) -> &mut T {
+        self.inner.as_mut().unwrap()
+    }
+}
+
+impl<'a, T> Drop for MutexGuard<'a, T> {
+    fn drop(&mut self) {
+        let e = Event {
+            op: Op::MutexUnlock,
+            file: file!(),
+            line: 0,
+            addr: self.addr,
+            ord: None,
+            ord_fail: None,
+            arg: std::thread::panicking() as u64,
+            arg2: 0,
+            name: "",
+        };
+        pre(&e);
+        self.inner.take();
+        post(&e, 0, true);
+    }
+}
+
+/// `Box` with reported allocation and release (only the functions the half-lock uses).
+pub struct Box<T>(std::boxed::Box<T>);
+
+impl<T> Box<T> {
+    #[track_caller]
+    pub fn new(v: T) -> Self {
+        let b = std::boxed::Box::new(v);
+        let e = ev(Op::Alloc, Location::caller(), &*b as *const T as usize);
+        pre(&e);
+        post(&e, e.addr as u64, true);
+        Box(b)
+    }
+    pub fn into_raw(b: Self) -> *mut T {
+        let b = std::mem::ManuallyDrop::new(b);
+        let inner = unsafe { std::ptr::read(&b.0) };
+        std::boxed::Box::into_raw(inner)
+    }
+    pub unsafe fn from_raw(p: *mut T) -> Self {
+        Box(std::boxed::Box::from_raw(p))
+    }
+}
+
+impl<T> Drop for Box<T> {
+    fn drop(&mut self) {
+        let e = Event {
+            op: Op::Free,
+            file: file!(),
+            line: 0,
+            addr: &*self.0 as *const T as usize,
+            ord: None,
+            ord_fail: None,
+            arg: 0,
+            arg2: 0,
+            name: "",
+        };
+        pre(&e);
+        post(&e, e.addr as u64, true);
+        // the contents are dropped after this returns
+    }
+}
+
+/// `UnsafeCell` whose `get()` (taken immediately before each access in the modelled code) is
+/// reported as the access.
+#[derive(Debug, Default)]
+pub struct UnsafeCell<T>(StdUnsafeCell<T>);
+
+impl<T> UnsafeCell<T> {
+    pub fn new(v: T) -> Self {
+        UnsafeCell(StdUnsafeCell::new(v))
+    }
+    #[track_caller]
+    pub fn get(&self) -> *mut T {
+        let e = ev(Op::CellAccess, Location::caller(), self.0.get() as usize);
+        pre(&e);
+        post(&e, 0, true);
+        self.0.get()
+    }
+}
+
+/// Report a system call made by the library; returns `Some(v)` if it must not be performed.
+#[track_caller]
+pub fn syscall_pre(name: &'static str, a: i64, b: i64) -> (Event, Option<i64>) {
+    let mut e = ev(Op::Syscall, Location::caller(), 0);
+    e.name = name;
+    e.arg = a as u64;
+    e.arg2 = b as u64;
+    let r = match pre(&e) {
+        Inject::Return(v) => Some(v),
+        _ => None,
+    };
+    (e, r)
+}
+
+pub fn syscall_post(e: &Event, result: i64) {
+    post(e, result as u64, result >= 0);
+}
+
+/// `libc` with the calls the modelled code makes routed through the callbacks.
+pub mod libc_facade {
+    pub use real_libc::*;
+
+    use super::{syscall_post, syscall_pre};
+
+    #[track_caller]
+    pub unsafe fn sigaction(sig: c_int, act: *const ::real_libc::sigaction, old: *mut ::real_libc::sigaction) -> c_int {
+        let (e, inj) = syscall_pre("sigaction", sig as i64, (!act.is_null()) as i64);
+        let r = match inj {
+            Some(v) => v as c_int,
+            None => ::real_libc::sigaction(sig, act, old),
+        };
+        syscall_post(&e, r as i64);
+        r
+    }
+}
